@@ -37,7 +37,8 @@ TRUSTED_BASE = [
     "Extraction: ExtrOcamlBasic only (Extract Inductive bool/option/unit/list/prod/sumbool/sumor from that file; no Extract Constant); OCaml 4.13 + zarith only for decimal text <-> extracted Z in ocaml/driver.ml",
     "Correspondence check (hand-written model, differential): Python generators/renderers/canonicalisation in /verif/lib, Rust harness /verif/harness driving the public API of the repository built from its current working tree",
     "Assumed oracle: rust_decimal arithmetic = Base/Fit.v `fit` (re-validated against the real crate on every run)",
-    "Modelled, not verified: everything under coq/Model; not modelled: csv, regex, json, office/xlsx, lopdf/pdf-extract, tabled, clap, time parsing, async executor, HTTP, OS/filesystem",
+    "Modelled, not verified (hand-written Gallina transliterations under coq/Model, tied to the code only by the differential checks): bookkeeping core (delta_list.rs, portfolio_status.rs, superficial_loss.rs, splits.rs expansion, approot.rs per-security pipeline), cumulative gains, report renderer (render.rs cells and cent text), transaction CSV reader/writer after tokenisation (tx_csv.rs, Tx::try_from) and its bridge to the ledger rows, summary generation, total-cost tables, exchange-rate look-up / cache state machine / cache file protocol, Questrade sheet conversion and statement table parser, E*TRADE matching core",
+    "Not modelled (exercised through the real code only): csv crate tokenisation/quoting, regex engine, json crate, office/xlsx decoding, lopdf/pdf-extract, tabled table drawing, clap option parsing, time-crate date formats, async executor, HTTP, OS/filesystem (except the crash/persistence rule assumed in Model/CrashFs.v)",
 ]
 
 
